@@ -471,7 +471,7 @@ FairSpec == Spec /\ WF_vars(AcceptStep) /\ WF_vars(Replace) /\ \A i \in Workers 
 (* property predicates                                                                           *)
 (* ------------------------------------------------------------------------------------------- *)
 TypeOK == /\ next \in 0..W /\ apc \in {"idle", "batch", "pop", "acc", "one", "send", "inc", "tmo", "panicked", "exited"}
-          /\ \A i \in Workers : counter[i] \in 0..(Limit + 3)
+          /\ \A i \in Workers : counter[i] \in 0..(MaxConns + 2)
 
 \* ---- C01 ----
 AllConns == 1..nconn
